@@ -197,27 +197,34 @@ def readCommentWith (skip : IS → Out LoopRes) (iters : Nat) (s : IS) : Out Loo
 /-- common shape of both: read characters until `stop`; a quote starts a string that is skipped as a whole;
 NUL is an input error.  `c` is the C variable (stale after a failed extraction).
 `cm`: the `case '/':` of `SkipInstance` (a comment is stepped over; regenerated flag), `iters` the comment limit. -/
+def scanAfter (rec : IS → Byte → Nat → Nat → Out LoopRes) (stop : Byte) (putbackStop cm : Bool) (iters : Nat)
+    (s1 : IS) (c1 : Byte) (len steps : Nat) : Out LoopRes :=
+  if c1 = stop then .ok ⟨if putbackStop then s1.putback c1 else s1, sevNull, len, steps + 1⟩
+  else if cm && c1 = chSlash then
+    let (s2, p) := s1.peek
+    if p = some chStar then
+      match readCommentWith (fun s' => rec s' 0 0 0) iters (s2.putback c1) with
+      | .ok r => rec r.s c1 len (steps + 1 + r.steps)
+      | .overflow i c => .overflow i c
+      | .outOfFuel => .outOfFuel
+    else rec s2 c1 (len + 1) (steps + 1)
+  else if c1 = chQuote then
+    let (s2, str) := sdaiStringRead (s1.putback c1)
+    rec s2 c1 (len + (cstr str).length) (steps + 1)
+  else if c1 = 0 then .ok ⟨s1, sevInputError, len, steps + 1⟩
+  else rec s1 c1 (len + 1) (steps + 1)
+
+/-- one iteration; `rec` is the rest of the loop (the same function with one unit of fuel less) -/
+def scanStep (rec : IS → Byte → Nat → Nat → Out LoopRes) (stop : Byte) (putbackStop cm : Bool) (iters : Nat)
+    (s : IS) (c : Byte) (len steps : Nat) : Out LoopRes :=
+  if !s.good then .ok ⟨s, sevInputError, len, steps⟩ else
+  match s.extract with
+  | (s', some c') => scanAfter rec stop putbackStop cm iters s' c' len steps
+  | (s', none) => scanAfter rec stop putbackStop cm iters s' c len steps
+
 def scanUntil (stop : Byte) (putbackStop cm : Bool) (iters : Nat) : Nat → IS → Byte → Nat → Nat → Out LoopRes
-  | 0, _, _, _, _ => .outOfFuel
-  | fuel + 1, s, c, len, steps =>
-    if !s.good then .ok ⟨s, sevInputError, len, steps⟩ else
-    let (s1, c1) := match s.extract with
-      | (s', some c') => (s', c')
-      | (s', none) => (s', c)
-    if c1 = stop then .ok ⟨if putbackStop then s1.putback c1 else s1, sevNull, len, steps + 1⟩
-    else if cm && c1 = chSlash then
-      let (s2, p) := s1.peek
-      if p = some chStar then
-        match readCommentWith (fun s' => scanUntil stop putbackStop cm iters fuel s' 0 0 0) iters (s2.putback c1) with
-        | .ok r => scanUntil stop putbackStop cm iters fuel r.s c1 len (steps + 1 + r.steps)
-        | .overflow i c => .overflow i c
-        | .outOfFuel => .outOfFuel
-      else scanUntil stop putbackStop cm iters fuel s2 c1 (len + 1) (steps + 1)
-    else if c1 = chQuote then
-      let (s2, str) := sdaiStringRead (s1.putback c1)
-      scanUntil stop putbackStop cm iters fuel s2 c1 (len + (cstr str).length) (steps + 1)
-    else if c1 = 0 then .ok ⟨s1, sevInputError, len, steps + 1⟩
-    else scanUntil stop putbackStop cm iters fuel s1 c1 (len + 1) (steps + 1)
+  | 0 => fun _ _ _ _ => .outOfFuel
+  | fuel + 1 => scanStep (scanUntil stop putbackStop cm iters fuel) stop putbackStop cm iters
 
 def skipInstance (cm : Bool) (iters fuel : Nat) (s : IS) : Out LoopRes := scanUntil chSemi false cm iters fuel s 0 0 0
 def findStartOfInstance (fuel : Nat) (s : IS) : Out LoopRes := scanUntil chHash true false 0 fuel s 0 0 0
@@ -237,23 +244,24 @@ def readPcd (s : IS) : IS :=
     else s2
   else s1
 
+/-- one iteration of `while( in )`; `rec` is the rest of the loop, `skip` the `SkipInstance` an overlong comment falls back to -/
+def tokSepStep (rec : IS → Nat → Out LoopRes) (skip : IS → Out LoopRes) (iters : Nat) (s : IS) (steps : Nat) : Out LoopRes :=
+  if s.fail then .ok ⟨s, 0, 0, steps⟩ else
+  match s.ws.peek with
+  | (s2, none) => .ok ⟨s2, 0, 0, steps + 1⟩
+  | (s2, some c) =>
+    if c = chSlash then
+      match readCommentWith skip iters s2 with
+      | .ok r => rec r.s (steps + 1 + r.steps)
+      | .overflow i c => .overflow i c
+      | .outOfFuel => .outOfFuel
+    else if c = chBackslash then rec (readPcd s2) (steps + 1)
+    else if c = chNewline then rec s2.ignore (steps + 1)
+    else .ok ⟨s2, 0, 0, steps + 1⟩
+
 def tokSepLoop (cm : Bool) (iters : Nat) : Nat → IS → Nat → Out LoopRes
-  | 0, _, _ => .outOfFuel
-  | fuel + 1, s, steps =>
-    if s.fail then .ok ⟨s, 0, 0, steps⟩ else
-    let s1 := s.ws
-    let (s2, p) := s1.peek
-    match p with
-    | none => .ok ⟨s2, 0, 0, steps + 1⟩
-    | some c =>
-      if c = chSlash then
-        match readComment cm iters (fuel + 1) s2 with
-        | .ok r => tokSepLoop cm iters fuel r.s (steps + 1 + r.steps)
-        | .overflow i c => .overflow i c
-        | .outOfFuel => .outOfFuel
-      else if c = chBackslash then tokSepLoop cm iters fuel (readPcd s2) (steps + 1)
-      else if c = chNewline then tokSepLoop cm iters fuel s2.ignore (steps + 1)
-      else .ok ⟨s2, 0, 0, steps + 1⟩
+  | 0 => fun _ _ => .outOfFuel
+  | fuel + 1 => tokSepStep (tokSepLoop cm iters fuel) (skipInstance cm iters (fuel + 1)) iters
 
 def readTokenSeparator (cm : Bool) (iters fuel : Nat) (s : IS) : Out LoopRes :=
   if s.eof then .ok ⟨s, 0, 0, 0⟩ else tokSepLoop cm iters fuel s 0
@@ -335,20 +343,23 @@ def recoveryScan (fuel : Nat) (s : IS) (c : Byte) : Out LoopRes := recoverOuter 
 
 /-! ### export list `/#1, #2/` of Create/ReadScopeInstances -/
 
-def exportLoop (checks cm : Bool) (iters : Nat) : Nat → IS → Byte → Nat → Out LoopRes
-  | 0, _, _, _ => .outOfFuel
-  | fuel + 1, s, c, steps =>
-    if c = chComma && (!checks || s.good) then
-      match readTokenSeparator cm iters (fuel + 1) s with
-      | .ok r1 =>
-        let (s2, _) := r1.s.get
-        let s3 := s2.extractInt
-        match readTokenSeparator cm iters (fuel + 1) s3 with
-        | .ok r2 =>
-          let (s4, c4) := match r2.s.get with | (s', some c') => (s', c') | (s', none) => (s', c)
-          exportLoop checks cm iters fuel s4 c4 (steps + 1 + r1.steps + r2.steps)
-        | o => o
+/-- one iteration of `while( c == ',' [&& in.good()] )`; `tok` is `ReadTokenSeparator`, `rec` the rest of the loop -/
+def exportStep (rec : IS → Byte → Nat → Out LoopRes) (tok : IS → Out LoopRes) (checks : Bool)
+    (s : IS) (c : Byte) (steps : Nat) : Out LoopRes :=
+  if c = chComma && (!checks || s.good) then
+    match tok s with
+    | .ok r1 =>
+      match tok (r1.s.get).1.extractInt with
+      | .ok r2 =>
+        match r2.s.get with
+        | (s4, some c4) => rec s4 c4 (steps + 1 + r1.steps + r2.steps)
+        | (s4, none) => rec s4 c (steps + 1 + r1.steps + r2.steps)
       | o => o
-    else .ok ⟨s, 0, 0, steps⟩
+    | o => o
+  else .ok ⟨s, 0, 0, steps⟩
+
+def exportLoop (checks cm : Bool) (iters : Nat) : Nat → IS → Byte → Nat → Out LoopRes
+  | 0 => fun _ _ _ => .outOfFuel
+  | fuel + 1 => exportStep (exportLoop checks cm iters fuel) (readTokenSeparator cm iters (fuel + 1)) checks
 
 end StepModel.P21Safe
